@@ -813,6 +813,15 @@ func (c *valConfig) genContainer(rt *rapid.T, depth int, pub bool) *Val {
 		}
 		return v
 	}
+	if !c.two && rapid.IntRange(0, 24).Draw(rt, "mck") == 17 {
+		// keys that start with a NaN and differ in what follows
+		v := &Val{K: pick(rt, "mckk", []string{"mck", "mnk"})}
+		n := rapid.IntRange(2, 4).Draw(rt, "mckn")
+		for i := 0; i < n; i++ {
+			v.Sub = append(v.Sub, c.genVal(rt, depth+1, pub))
+		}
+		return v
+	}
 	if !c.two && rapid.IntRange(0, 24).Draw(rt, "mfi") == 11 {
 		// float keys including NaN (several NaN keys are distinct entries)
 		v := &Val{K: "mfi"}
